@@ -281,30 +281,41 @@ fn geo_polygons(polys: &[(Vec<XY>, Vec<Vec<XY>>)], single: bool) -> Result<(), F
     Ok(())
 }
 
-fn trait_point(v: &V) -> Result<(), Fail> {
-    fn probe<C: CoordTrait<T = f64>>(name: &str, c: &C, fields: &[(geo_traits::Dimensions, Vec<F>)]) -> Result<(), Fail> {
-        let d = c.dim();
-        let n = d.size();
-        let expect = fields
-            .iter()
-            .find(|(k, _)| *k == d)
-            .map(|(_, f)| f.clone())
-            .ok_or_else(|| Fail::new("dimension", format!("{} reports dimensions {:?}", name, d)))?;
-        ensure!(expect.len() == n, "dimension", "{}: {:?} has size {}", name, d, n);
-        for i in 0..n {
-            let a = guard(|| c.nth(i)).map_err(|p| Fail::new("nth-panics", format!("{} with dim {:?} (size {}): nth({}) panics: {}", name, d, n, i, p)))?;
-            ensure!(a.map(F::of) == Some(expect[i]), "nth-wrong", "{} dim {:?}: nth({}) = {:?}, field is {:?}", name, d, i, a, expect[i]);
-            let b = guard(|| c.nth_or_panic(i)).map_err(|p| Fail::new("nth-panics", format!("{} dim {:?}: nth_or_panic({}) panics: {}", name, d, i, p)))?;
-            ensure!(F::of(b) == expect[i], "nth-wrong", "{}: nth_or_panic({}) = {:?}", name, i, b);
-            // SAFETY: i is below the reported dimension count, which is what the trait requires
-            let u = guard(|| unsafe { c.nth_unchecked(i) }).map_err(|p| Fail::new("nth-panics", format!("{}: nth_unchecked({}) panics: {}", name, i, p)))?;
-            ensure!(F::of(u) == expect[i], "nth-wrong", "{}: nth_unchecked({}) = {:?}", name, i, u);
-        }
-        let past = guard(|| c.nth(n)).map_err(|p| Fail::new("nth-panics", format!("{}: nth({}) panics: {}", name, n, p)))?;
-        ensure!(past.is_none(), "nth-wrong", "{}: nth({}) = {:?} with only {} dimensions", name, n, past, n);
-        ensure!(F::of(c.x()) == expect[0] && F::of(c.y()) == expect[1], "nth-wrong", "{}: x()/y() differ from the fields", name);
-        Ok(())
+fn probe<C: CoordTrait<T = f64>>(name: &str, c: &C, fields: &[(geo_traits::Dimensions, Vec<F>)]) -> Result<(), Fail> {
+    let d = c.dim();
+    let n = d.size();
+    let expect = fields
+        .iter()
+        .find(|(k, _)| *k == d)
+        .map(|(_, f)| f.clone())
+        .ok_or_else(|| Fail::new("dimension", format!("{} reports dimensions {:?}", name, d)))?;
+    ensure!(expect.len() == n, "dimension", "{}: {:?} has size {}", name, d, n);
+    for i in 0..n {
+        let a = guard(|| c.nth(i)).map_err(|p| Fail::new("nth-panics", format!("{} with dim {:?} (size {}): nth({}) panics: {}", name, d, n, i, p)))?;
+        ensure!(a.map(F::of) == Some(expect[i]), "nth-wrong", "{} dim {:?}: nth({}) = {:?}, field is {:?}", name, d, i, a, expect[i]);
+        let b = guard(|| c.nth_or_panic(i)).map_err(|p| Fail::new("nth-panics", format!("{} dim {:?}: nth_or_panic({}) panics: {}", name, d, i, p)))?;
+        ensure!(F::of(b) == expect[i], "nth-wrong", "{}: nth_or_panic({}) = {:?}", name, i, b);
+        // SAFETY: i is below the reported dimension count, which is what the trait requires
+        let u = guard(|| unsafe { c.nth_unchecked(i) }).map_err(|p| Fail::new("nth-panics", format!("{}: nth_unchecked({}) panics: {}", name, i, p)))?;
+        ensure!(F::of(u) == expect[i], "nth-wrong", "{}: nth_unchecked({}) = {:?}", name, i, u);
     }
+    let past = guard(|| c.nth(n)).map_err(|p| Fail::new("nth-panics", format!("{}: nth({}) panics: {}", name, n, p)))?;
+    ensure!(past.is_none(), "nth-wrong", "{}: nth({}) = {:?} with only {} dimensions", name, n, past, n);
+    ensure!(F::of(c.x()) == expect[0] && F::of(c.y()) == expect[1], "nth-wrong", "{}: x()/y() differ from the fields", name);
+    Ok(())
+}
+
+/// Expected fields per reported dimension for a point of the 2-D / M / Z family holding `v`.
+fn fields_for(family: u8, v: &V) -> Vec<(geo_traits::Dimensions, Vec<F>)> {
+    use geo_traits::Dimensions as D;
+    match family {
+        0 => vec![(D::Xy, vec![v[0], v[1]])],
+        1 => vec![(D::Xy, vec![v[0], v[1]]), (D::Xym, vec![v[0], v[1], v[3]])],
+        _ => vec![(D::Xyz, vec![v[0], v[1], v[2]]), (D::Xyzm, vec![v[0], v[1], v[2], v[3]])],
+    }
+}
+
+fn trait_point(v: &V) -> Result<(), Fail> {
     use geo_traits::Dimensions as D;
     let p = Point::new(v[0].v(), v[1].v());
     let pm = PointM::new(v[0].v(), v[1].v(), v[3].v());
@@ -332,12 +343,18 @@ fn trait_point(v: &V) -> Result<(), Fail> {
 
 fn trait_multi(g: &Geom) -> Result<(), Fail> {
     let want = xy_of(g);
+    let fam: u8 = if g.ty.has_z() { 2 } else if g.ty.carries_m() { 1 } else { 0 };
     macro_rules! mp {
         ($T:ident) => {{
             let s = <$T as Kind>::build(g, Ctor::Plain);
             ensure!(MultiPointTrait::num_points(&s) == want[0].len(), "trait-count", "num_points {} vs {}", MultiPointTrait::num_points(&s), want[0].len());
             let got: Vec<XY> = MultiPointTrait::points(&s).map(|p| { let c = PointTrait::coord(&p).unwrap(); (F::of(CoordTrait::x(&c)), F::of(CoordTrait::y(&c))) }).collect();
             ensure!(got == want[0], "trait-points", "MultiPointTrait enumerates {:?}, accessor has {:?}", got, want[0]);
+            // every point reached through the view: dimension count and readable coordinates
+            for (i, p) in MultiPointTrait::points(&s).enumerate() {
+                let c = PointTrait::coord(&p).unwrap();
+                probe(&format!("{} point {} through MultiPointTrait", g.ty.name(), i), &c, &fields_for(fam, &g.parts[0].pts[i]))?;
+            }
         }};
     }
     macro_rules! pl {
@@ -348,6 +365,12 @@ fn trait_multi(g: &Geom) -> Result<(), Fail> {
                 .map(|l| LineStringTrait::coords(&l).map(|c| (F::of(CoordTrait::x(&c)), F::of(CoordTrait::y(&c)))).collect())
                 .collect();
             ensure!(got == want, "trait-points", "MultiLineStringTrait enumerates {:?}, accessor has {:?}", got, want);
+            for (pi, l) in MultiLineStringTrait::line_strings(&s).enumerate() {
+                ensure!(LineStringTrait::num_coords(&l) == want[pi].len(), "trait-count", "line string {}: num_coords {} vs {}", pi, LineStringTrait::num_coords(&l), want[pi].len());
+                for (i, c) in LineStringTrait::coords(&l).enumerate() {
+                    probe(&format!("{} part {} point {} through LineStringTrait", g.ty.name(), pi, i), &c, &fields_for(fam, &g.parts[pi].pts[i]))?;
+                }
+            }
         }};
     }
     match g.ty {
